@@ -1,0 +1,111 @@
+//! Verification hooks (only with the `verif-hooks` feature; never in normal builds).
+//!
+//! * `atomic`: drop-in wrappers over the std atomics that call a scheduler hook
+//!   before every single atomic operation, so that an external harness can decide
+//!   the interleaving of the atomic steps of concurrent operations.
+//! * `log_draw`: sink for random draws (chaos layer), so a harness can replay them.
+
+use std::sync::{Mutex, OnceLock};
+
+static HOOK: OnceLock<fn(&'static str)> = OnceLock::new();
+
+/// Install the scheduler hook (once per process).
+pub fn set_hook(f: fn(&'static str)) {
+    let _ = HOOK.set(f);
+}
+
+#[inline]
+fn hook(op: &'static str) {
+    if let Some(f) = HOOK.get() {
+        f(op)
+    }
+}
+
+static DRAWS: Mutex<Vec<(u8, u64)>> = Mutex::new(Vec::new());
+
+/// Record one random draw: `kind` identifies the draw site, `bits` its value.
+pub fn log_draw(kind: u8, bits: u64) {
+    DRAWS.lock().unwrap_or_else(|e| e.into_inner()).push((kind, bits));
+}
+
+/// Take (and clear) the recorded draws.
+pub fn take_draws() -> Vec<(u8, u64)> {
+    std::mem::take(&mut *DRAWS.lock().unwrap_or_else(|e| e.into_inner()))
+}
+
+pub mod atomic {
+    pub use std::sync::atomic::Ordering;
+
+    macro_rules! wrap {
+        ($name:ident, $ty:ty) => {
+            #[derive(Debug, Default)]
+            pub struct $name(std::sync::atomic::$name);
+
+            impl $name {
+                pub const fn new(v: $ty) -> Self {
+                    Self(std::sync::atomic::$name::new(v))
+                }
+                pub fn load(&self, o: Ordering) -> $ty {
+                    super::hook("load");
+                    self.0.load(o)
+                }
+                pub fn store(&self, v: $ty, o: Ordering) {
+                    super::hook("store");
+                    self.0.store(v, o)
+                }
+                pub fn compare_exchange(
+                    &self,
+                    c: $ty,
+                    n: $ty,
+                    s: Ordering,
+                    f: Ordering,
+                ) -> Result<$ty, $ty> {
+                    super::hook("cas");
+                    self.0.compare_exchange(c, n, s, f)
+                }
+                pub fn compare_exchange_weak(
+                    &self,
+                    c: $ty,
+                    n: $ty,
+                    s: Ordering,
+                    f: Ordering,
+                ) -> Result<$ty, $ty> {
+                    super::hook("cas");
+                    // strong: spurious failures are a schedule choice of the model only
+                    self.0.compare_exchange(c, n, s, f)
+                }
+                pub fn fetch_add(&self, v: $ty, o: Ordering) -> $ty {
+                    super::hook("rmw");
+                    self.0.fetch_add(v, o)
+                }
+                pub fn fetch_sub(&self, v: $ty, o: Ordering) -> $ty {
+                    super::hook("rmw");
+                    self.0.fetch_sub(v, o)
+                }
+                /// Same algorithm as std: a load followed by a compare-exchange loop,
+                /// with every atomic step visible to the scheduler.
+                pub fn fetch_update<F>(
+                    &self,
+                    set_order: Ordering,
+                    fetch_order: Ordering,
+                    mut f: F,
+                ) -> Result<$ty, $ty>
+                where
+                    F: FnMut($ty) -> Option<$ty>,
+                {
+                    let mut prev = self.load(fetch_order);
+                    while let Some(next) = f(prev) {
+                        match self.compare_exchange_weak(prev, next, set_order, fetch_order) {
+                            x @ Ok(_) => return x,
+                            Err(next_prev) => prev = next_prev,
+                        }
+                    }
+                    Err(prev)
+                }
+            }
+        };
+    }
+
+    wrap!(AtomicU64, u64);
+    wrap!(AtomicUsize, usize);
+}
